@@ -22,7 +22,7 @@ ANCHORS = ["model/model.py:Model.simulate", "model/model.py:Model._build_simulat
 ASSUMPTIONS = ["distributions sit on strong variables (weak distributed variables make simulate raise by documentation)",
                "skipping by a variable's value-node name is not exercised (the documentation does not promise it)"]
 WORKERS = 16
-TIMEOUT = {"quick": 900, "thorough": 3600}
+TIMEOUT = {"quick": 1500, "thorough": 10800}
 
 
 def gen_prog(rng):
